@@ -110,7 +110,7 @@ def deck_sweep(prop, tier, seed, families=('level0',), n_quick=48, n_thorough=60
         for i in range(N_DIRECTED):
             units.append((('directed', i), ('directed', i, [prop], kw or {})))
     t0 = time.time()
-    res = run_units(units, _one, unit_timeout=300)
+    res = run_units(units, _one, unit_timeout=150)
     fails, evals, pts, nontriv, errors = [], 0, 0, 0, []
     for key, (kind, r) in res.items():
         if kind != 'ok':
